@@ -545,3 +545,10 @@ RULE = RULE + ("; wave 5 (props/C16_doc.py): documents with mixed containers in 
 # <<<
 # a_dom (wave 4): the additional claim is part of the manifest text
 CLAIM["text"] = CLAIM["text"] + ". Wave 4: " + CLAIM.pop("wave4") + ". Wave 5: " + CLAIM.pop("wave5")
+
+# >>> s_dom (wave 6)
+RULE = RULE + ("; wave 6 (props/C16_ladder.py): the size ladders of props/C17_ladder.py (fields / duplicates / groups to 4097, key / header / string "
+               "length to 65536, escapes per kind to 65536, arrays to 65536, triples x window phase to 1025, nesting to 1025, numbers of every "
+               "magnitude / digit count, output from 0.15 x to 9800 x the pre-allocation) through json(): streams ladder_ser / ladder_print / "
+               "ladder_atoms (with the model), ladder_*_big / ladder_print_deeper (oracles only: check_out, run_text, counts by construction)")
+# <<<
